@@ -2,13 +2,13 @@
 # confirm_seed.sh <seed-src-dir> <id> <property> : confirm a sub-agent's seeded change in a scratch worktree of
 # /repo (current HEAD): applies, builds, demo fails, test suite passes, and on the pristine tree the demo passes.
 # On success copies it to /verif/seeded/<id>/ with meta.json.  The worktree is removed afterwards.
-src="$1"; id="$2"; prop="$3"
+src="$1"; id="$2"; prop="$3"; base="${4:-HEAD}"
 wt=/tmp/wt/confirm-$id
 log=/tmp/seed/confirm-$id.log
 exec > "$log" 2>&1
 set -x
 git -C /repo worktree remove --force "$wt" 2>/dev/null
-git -C /repo worktree add -q --detach "$wt" || exit 9
+git -C /repo worktree add -q --detach "$wt" "$base" || exit 9
 cp /repo/config.mak "$wt/"
 cd "$wt"
 res() { echo "RESULT $id: $*"; cd /; git -C /repo worktree remove --force "$wt"; exit 0; }
@@ -27,7 +27,7 @@ mkdir -p /verif/seeded/$id
 cp -r "$src"/* /verif/seeded/$id/
 cat > /verif/seeded/$id/meta.json <<EOM
 {"id": "$id", "property": "$prop", "source": "independent sub-agent given only the property text and a scratch worktree",
- "confirmed": {"base": "$(git -C /repo rev-parse --short HEAD)", "applies": true, "builds": true,
+ "confirmed": {"base": "$(git -C /repo rev-parse --short $base)", "applies": true, "builds": true,
   "demo_exit_pristine": $p0, "demo_exit_changed": $p1, "make_tests_exit_changed": $t, "pass_lines": $npass},
  "ran": "tools/confirm_seed.sh $src $id $prop"}
 EOM
